@@ -36,7 +36,12 @@ Definition suffix_of (suf s : string) : bool :=
 Definition stage_failure_sites : list string :=
   ["hydraulics!PipeflowNotConverged"; "bidirectional!PipeflowNotConverged"; "heat_transfer!PipeflowNotConverged"].
 
-Definition stage_failure (f : nat) : bool := mem (nth f fn_names "?") stage_failure_sites.
+(* ... and everything raised while the Newton loop runs: the explicit raise sites reached from newton_raphson and
+   the modelled implicit exception (any statement may raise; modelled where the content of the cache key changes) *)
+Definition in_newton_loop (s : string) : bool := suffix_of "@newton_raphson" s.
+
+Definition stage_failure (f : nat) : bool :=
+  let s := nth f fn_names "?" in mem s stage_failure_sites || in_newton_loop s.
 
 Definition cache_key : key := "_internal_data".
 
@@ -45,7 +50,8 @@ Definition cache_clean (x : string * bool * bool * prog) : bool :=
   (let e := eff cache_key stage_failure (prog_of x) in negb (eW (fst e)) && negb (eW (snd e))).
 
 Definition cache_ok : bool :=
-  forallb cache_clean all_progs && forallb (fun s => mem s fn_names) stage_failure_sites.
+  forallb cache_clean all_progs && forallb (fun s => mem s fn_names) stage_failure_sites &&
+  mem "implicit@newton_raphson" fn_names && Nat.leb 5 (length (filter in_newton_loop fn_names)).
 
 (* every raise site (any class) at which a call without the reuse option may still hold a cache it wrote *)
 Definition leaky_sites : list (cfg * string) :=
@@ -99,6 +105,28 @@ Definition heat_tail_ok : bool :=
      "identify_active_nodes_branches"; "heat_transfer"] &&
   match get_phase "use_given_hydraulic_results" phases_heat_plain with Some _ => true | None => false end.
 
+(* ---- transient thermal calculation: the pit is carried from step to step BY DESIGN.  Which internal keys a call
+   reads from the previous step is computed (the smallest exception set the scan needs) and pinned. *)
+Fixpoint needed (fuel : nat) (E : list key) (p : prog) : list key :=
+  match fuel with
+  | O => E
+  | S n => match scan E None p ([], []) with Reject _ k => needed n (k :: E) p | _ => E end
+  end.
+
+Definition same_set (a b : list key) : bool := forallb (fun k => mem k b) a && forallb (fun k => mem k a) b.
+
+Definition carried (mode : string) (step : nat) : list key :=
+  app (if Nat.eqb step 0 then [] else ["_pit"; "_old_pit"; "converged"])
+      (if String.eqb mode "bidirectional" then ["_active_pit"] else []).
+
+Definition transient_ok : bool :=
+  forallb (fun x : string * nat * prog =>
+     let '(m, st, p) := x in
+     same_set (needed 16 [] p) (carried m st) && accepts (carried m st) p && negb (writes_user p)) transient_progs
+  && Nat.eqb (length transient_progs) 4.
+
+Lemma transient_ok_true : transient_ok = true. Proof. vm_compute. reflexivity. Qed.
+
 Lemma frame_ok_true : frame_ok = true. Proof. vm_compute. reflexivity. Qed.
 Lemma summary_ok_true : summary_ok = true. Proof. vm_compute. reflexivity. Qed.
 Lemma scan_ok_true : scan_ok = true. Proof. vm_compute. reflexivity. Qed.
@@ -122,7 +150,7 @@ Lemma cache_clean_in : forall x, In x all_progs -> snd (fst x) = false ->
   eW (snd (eff cache_key stage_failure (prog_of x))) = false.
 Proof.
   intros x Hx Hr. generalize cache_ok_true. unfold cache_ok. intros H.
-  apply andb_true_iff in H. destruct H as [H _]. rewrite forallb_forall in H. specialize (H x Hx).
+  do 3 (apply andb_true_iff in H; destruct H as [H _]). rewrite forallb_forall in H. specialize (H x Hx).
   unfold cache_clean in H. rewrite Hr in H. simpl in H.
   apply andb_true_iff in H. destruct H as [H1 H2]. apply negb_true_iff in H1, H2. auto.
 Qed.
